@@ -330,6 +330,11 @@ def finish(prop, tier, seed, specs, results, wall, a):
     n_proof = [r for r in results if r["kind"] in ("proof", "ground")]
     n_dis = [r for r in n_proof if r["verdict"] == "discharged"]
     print(f"[{prop}] tier={tier} obligations={len(n_proof)} discharged={len(n_dis)} known-findings={len(known_hits)} violations={len(violations)} undecided={len(undecided)} faults={len(faults)} wall={wall:.1f}s")
+    slow = {}
+    for r in results:
+        slow[(r["ob"].split("/")[0], r["config"])] = max(slow.get((r["ob"].split("/")[0], r["config"]), 0), r.get("job_wall_s", 0))
+    top = sorted(slow.items(), key=lambda kv: -kv[1])[:5]
+    print("  slowest jobs: " + "; ".join(f"{k[0]}@{k[1]} {v:.0f}s" for k, v in top))
     if a.v:
         for r in results:
             print(f"  {r['verdict']:11s} {r['backend']:11s} {r['ob']} @ {r['config']} paths={r['paths']} {r['wall_s']}s {r['detail'][:100]}")
